@@ -40,6 +40,13 @@ type probe struct {
 	Port    uint16 `json:"port,omitempty"`
 	Payload int    `json:"payload,omitempty"` // udp / icmp payload bytes (0: header only)
 	NoOpts  bool   `json:"no_opts,omitempty"` // tcp: SYN without options
+	// Sport: the source port the scanner sends from (tcp / udp; icmp: echo identifier and
+	// sequence number). 0: a fresh ephemeral port per probe.
+	Sport uint16 `json:"sport,omitempty"`
+	// Trailer: link-layer bytes behind the IP datagram. -1: the frame is padded to the
+	// Ethernet minimum of 60 bytes as the sending station does, k > 0: k trailer bytes,
+	// 0: the frame ends with the IP datagram.
+	Trailer int `json:"trailer,omitempty"`
 }
 
 type phase struct {
@@ -166,18 +173,28 @@ func frames(l cl.Local, probes []probe) [][]byte {
 		frameSeq++
 		i := frameSeq
 		src := sources[p.Src]
+		sport := uint16(30000 + i%30000)
+		if p.Sport != 0 {
+			sport = p.Sport
+		}
+		var fr []byte
 		switch p.Proto {
 		case "tcp":
-			f := cl.TCPFields{Sport: uint16(30000 + i%30000), Dport: p.Port, Seq: 1000 * i, DataOff: -1, Flags: cl.SYN}
+			f := cl.TCPFields{Sport: sport, Dport: p.Port, Seq: 1000 * i, DataOff: -1, Flags: cl.SYN}
 			if !p.NoOpts {
 				f.Options = []byte{2, 4, 5, 0xb4}
 			}
-			out = append(out, l.TCPFrame(src, f))
+			fr = l.TCPFrame(src, f)
 		case "udp":
-			out = append(out, l.UDPFrame(src, uint16(30000+i%30000), p.Port, []byte("scan-payload-bytes")[:p.Payload%19]))
+			fr = l.UDPFrame(src, sport, p.Port, []byte("scan-payload-bytes")[:p.Payload%19])
 		default:
-			out = append(out, l.ICMPFrame(src, 77, uint16(i), []byte("abcdefghijklmnopqrstuvwxyz012345")[:p.Payload%33]))
+			id, seq := uint16(77), uint16(i)
+			if p.Sport != 0 {
+				id, seq = p.Sport, p.Sport
+			}
+			fr = l.ICMPFrame(src, id, seq, []byte("abcdefghijklmnopqrstuvwxyz012345")[:p.Payload%33])
 		}
+		out = append(out, cl.Trailer(fr, p.Trailer, byte(i)))
 	}
 	return out
 }
@@ -323,6 +340,57 @@ const (
 	firstWait   = 32 * time.Second // six detector ticks for the reports to be complete
 	settleAfter = tick + 1200*time.Millisecond
 )
+
+// wire describes the source ports and the framing of burst ph for a verdict.
+func (c scanCase) wire(ph int) string {
+	if ph >= len(c.Phases) {
+		return ""
+	}
+	earlier := map[string]bool{}
+	for _, p := range c.Phases[:ph] {
+		for _, pr := range append(append([]probe(nil), p.Probes...), p.OnHold...) {
+			if pr.Sport != 0 {
+				earlier[fmt.Sprintf("%d/%s/%d/%d", pr.Src, pr.Proto, pr.Sport, pr.Port)] = true
+			}
+		}
+	}
+	var again []string
+	seen := map[string]bool{}
+	set, padded, trailer, n := 0, 0, 0, 0
+	for _, pr := range append(append([]probe(nil), c.Phases[ph].Probes...), c.Phases[ph].OnHold...) {
+		n++
+		if pr.Sport != 0 {
+			set++
+			k := fmt.Sprintf("%d/%s/%d/%d", pr.Src, pr.Proto, pr.Sport, pr.Port)
+			if earlier[k] && !seen[k] {
+				seen[k] = true
+				if pr.Proto == "icmp" {
+					again = append(again, fmt.Sprintf("%s icmp id %d", sources[pr.Src].IP, pr.Sport))
+				} else {
+					again = append(again, fmt.Sprintf("%s:%d>%s/%d", sources[pr.Src].IP, pr.Sport, pr.Proto, pr.Port))
+				}
+			}
+		}
+		if pr.Trailer < 0 {
+			padded++
+		} else if pr.Trailer > 0 {
+			trailer++
+		}
+	}
+	out := ""
+	if set > 0 {
+		out += fmt.Sprintf(" [%d of the %d probes leave from a source port the scanner uses every time", set, n)
+		if len(again) > 0 {
+			sort.Strings(again)
+			out += fmt.Sprintf("; same source/destination port pair as in an earlier burst: %s", short(again))
+		}
+		out += "]"
+	}
+	if padded+trailer > 0 {
+		out += fmt.Sprintf(" [link-layer bytes behind the IP datagram: %d frames padded to the 60-byte Ethernet minimum, %d with other trailers]", padded, trailer)
+	}
+	return out
+}
 
 // runBatch plays the cases on fresh canaries of one child (one canary per case), phase
 // by phase, and returns the oracle's first complaint per case.
@@ -482,7 +550,7 @@ func runBatch(l cl.Local, cases []scanCase) ([]error, error) {
 				if ph < len(c.Phases) && c.Phases[ph].SpanMs > 0 {
 					pace = fmt.Sprintf(" [the burst took its time: %d probes back to back, the other %d spread over %d ms, no two more than %d ms apart and no two of one source and protocol more than %d ms]", c.Phases[ph].Head, len(c.Phases[ph].Probes)-c.Phases[ph].Head, c.Phases[ph].SpanMs, maxGapMs, maxGroupGapMs+maxExcessMs)
 				}
-				verdicts[i] = fmt.Errorf("burst %d of %d: %v%s%s%s", ph+1, len(c.Phases), v, waited, hold, pace)
+				verdicts[i] = fmt.Errorf("burst %d of %d: %v%s%s%s%s", ph+1, len(c.Phases), v, waited, hold, pace, c.wire(ph))
 			}
 		}
 	}
@@ -683,16 +751,114 @@ func genCase(rt *rapid.T, label string, nph int) scanCase {
 		}
 		c.Phases = append(c.Phases, p)
 	}
+	dress(rt, label, &c, nsrc)
 	return c
 }
 
-const ruleText = "scan cases of 1..3 bursts; a burst has 1..150 probes (TCP SYN with/without options to 17 ports or to distinct high ports, UDP with 0/1/4/18 payload bytes to 11 undecoded ports or distinct high ports, ICMP echo with 0/1/16/32 payload bytes) with repeated ports from 1..4 sources (three behind one router hardware address) in rapid-drawn interleavings, written to the socketpair of hooked canaries running the real Start() loop and knock detector in a child; 48-96 independent canaries share the detector ticks of a batch. A later burst of a case (same source and protocol again, other sources, or anything) is sent after the previous burst's reports are complete and one more tick was observed. Two fifths of the first bursts take their time: 0/1/50/100/101/102/120 probes back to back, the others evenly spread over 5.5 s or 10.5 s (more than one / two detector periods; gaps <= 1.5 s and <= 2 s between probes of one source and protocol, measured in the child - a burst whose probes were really written >= 2.5 s apart or that took >= 2 s longer than planned is dropped as inconclusive), three quarters of those with 101..150 probes. In a fifth of the multi-source cases the event channel takes 1.2 s per port-scan event of one source and 101..150 probes of another source arrive while such an event is being delivered. Oracle per burst and (source, destination): the concatenation of portscan.ports over the events of the burst's window is duplicate-free and equals the distinct protocol/port pairs that source probed in the burst; no event for a source that sent nothing in it; a source that probed over k protocols in the burst is reported in at most k events (the listener groups by protocol) - more means one burst was reported in pieces. non-trivial = a repeated protocol/port pair, >= 3 (source, protocol) groups live at a tick, a (source, protocol) group scanning again in a later burst, a slow-channel case, or a paced burst; plus all operation sequences of length <= 6 over 3 keys on the grouping container UniqueSet against an ordered-set model"
+// trailers: numbers of link-layer trailer bytes behind the IP datagram, biased to the
+// boundaries: one and two bytes, what pads a bare SYN (54 bytes), a SYN with an MSS option
+// (58) and an empty UDP datagram or echo request (42) to the 60-byte minimum and one
+// less / more, padding plus a 4-byte frame check sequence, long trailers; -1 pads to the
+// Ethernet minimum, 0 is a frame that ends with its datagram.
+var trailers = []int{1, -1, 2, 6, 0, 5, 7, -1, 17, 18, 19, 22, 4, 46, 64, -1, 3, 300}
+
+// fixedSports: source ports scanners are told to use (nmap -g 20/53/80/88, masscan's
+// default 40000..., boundaries); never 22, which the listener leaves to the sensor's own
+// ssh daemon.
+var fixedSports = []uint16{20, 53, 80, 88, 1024, 32768, 40000, 61000, 65535}
+
+// pairSport: the source port of a scanner that derives it from the probed port (the
+// same source/destination port pair every time it probes that port).
+func pairSport(src int, port uint16) uint16 {
+	return uint16(1024 + (int(port)*7+src*131)%60000)
+}
+
+// dress gives the probes of a case their source ports and link-layer framing. Source
+// ports per source: a fresh ephemeral port per probe, one fixed source port for every
+// probe of every burst, or a port derived from the probed port - with the last two a
+// later burst that probes a port again repeats the (source port, destination port) pair
+// of the earlier burst. Framing per case: frames that end with the IP datagram, frames
+// padded to the Ethernet minimum of 60 bytes (what arrives over a real Ethernet), or
+// arbitrary trailers of boundary-biased lengths.
+func dress(rt *rapid.T, label string, c *scanCase, nsrc int) {
+	var mode [4]int
+	var fixed [4]uint16
+	for s := 0; s < nsrc && s < 4; s++ {
+		mode[s] = rapid.SampledFrom([]int{0, 0, 1, 1, 2}).Draw(rt, label+"sport-mode")
+		fixed[s] = rapid.SampledFrom(fixedSports).Draw(rt, label+"sport")
+	}
+	framing := rapid.SampledFrom([]int{0, 0, 1, 1, 2}).Draw(rt, label+"framing")
+	tb := rapid.IntRange(0, len(trailers)-1).Draw(rt, label+"trailer-base")
+	n := 0
+	each := func(ps []probe) {
+		for i := range ps {
+			q := &ps[i]
+			switch mode[q.Src%4] {
+			case 1:
+				q.Sport = fixed[q.Src%4]
+			case 2:
+				q.Sport = pairSport(q.Src, q.Port)
+			}
+			switch framing {
+			case 1:
+				q.Trailer = -1
+			case 2:
+				q.Trailer = trailers[(tb+n)%len(trailers)]
+			}
+			n++
+		}
+	}
+	for i := range c.Phases {
+		each(c.Phases[i].Probes)
+		each(c.Phases[i].OnHold)
+	}
+}
+
+// dims names the source-port and framing classes a case covers (generator health).
+func dims(c scanCase) []string {
+	have := map[string]bool{}
+	earlier := map[string]bool{}
+	for _, p := range c.Phases {
+		now := map[string]bool{}
+		for _, pr := range append(append([]probe(nil), p.Probes...), p.OnHold...) {
+			if pr.Sport == 0 {
+				have["dim/sport=ephemeral"] = true
+			} else {
+				have["dim/sport=set/"+pr.Proto] = true
+				k := fmt.Sprintf("%d/%s/%d/%d", pr.Src, pr.Proto, pr.Sport, pr.Port)
+				if earlier[k] {
+					have["dim/same-port-pair-in-later-burst/"+pr.Proto] = true
+				}
+				now[k] = true
+			}
+			switch {
+			case pr.Trailer < 0:
+				have["dim/framing=padded-to-60/"+pr.Proto] = true
+			case pr.Trailer > 0:
+				have["dim/framing=trailer/"+pr.Proto] = true
+			default:
+				have["dim/framing=exact"] = true
+			}
+		}
+		for k := range now {
+			earlier[k] = true
+		}
+	}
+	out := make([]string, 0, len(have))
+	for k := range have {
+		out = append(out, k)
+	}
+	sort.Strings(out)
+	return out
+}
+
+const ruleText = "scan cases of 1..3 bursts; a burst has 1..150 probes (TCP SYN with/without options to 17 ports or to distinct high ports, UDP with 0/1/4/18 payload bytes to 11 undecoded ports or distinct high ports, ICMP echo with 0/1/16/32 payload bytes) with repeated ports from 1..4 sources (three behind one router hardware address) in rapid-drawn interleavings, written to the socketpair of hooked canaries running the real Start() loop and knock detector in a child; 48-96 independent canaries share the detector ticks of a batch. A later burst of a case (same source and protocol again, other sources, or anything) is sent after the previous burst's reports are complete and one more tick was observed. Two fifths of the first bursts take their time: 0/1/50/100/101/102/120 probes back to back, the others evenly spread over 5.5 s or 10.5 s (more than one / two detector periods; gaps <= 1.5 s and <= 2 s between probes of one source and protocol, measured in the child - a burst whose probes were really written >= 2.5 s apart or that took >= 2 s longer than planned is dropped as inconclusive), three quarters of those with 101..150 probes. Source ports per source of a case: a fresh ephemeral port per probe (2/5), one fixed source port for all its probes in all bursts (2/5; 20, 53, 80, 88, 1024, 32768, 40000, 61000, 65535 - ICMP: fixed echo identifier and sequence number) or a port derived from the probed port (1/5), so that a later burst probing a port again repeats the source/destination port pair of the earlier burst. Link-layer framing per case: frames ending with the IP datagram (2/5), short frames padded to the 60-byte Ethernet minimum (2/5), or trailers of 1/2/3/4/5/6/7/17/18/19/22/46/64/300 bytes, padded and exact frames mixed (1/5) - the trailer is not part of the datagram, the probe counts all the same. In a fifth of the multi-source cases the event channel takes 1.2 s per port-scan event of one source and 101..150 probes of another source arrive while such an event is being delivered. Oracle per burst and (source, destination): the concatenation of portscan.ports over the events of the burst's window is duplicate-free and equals the distinct protocol/port pairs that source probed in the burst; no event for a source that sent nothing in it; a source that probed over k protocols in the burst is reported in at most k events (the listener groups by protocol) - more means one burst was reported in pieces. non-trivial = a repeated protocol/port pair, >= 3 (source, protocol) groups live at a tick, a (source, protocol) group scanning again in a later burst, a slow-channel case, or a paced burst; plus all operation sequences of length <= 6 over 3 keys on the grouping container UniqueSet against an ordered-set model"
 
 // kind reduces an oracle message to its failure kind.
 func kind(err error) string {
 	m := err.Error()
 	var ks []string
-	for _, k := range []string{"never reported []", "listed more than once []", "not probed []", "which sent nothing", "port-scan events for one burst", "without a portscan.ports", "for destination", "burst 1 of", "was being delivered"} {
+	for _, k := range []string{"never reported []", "listed more than once []", "not probed []", "which sent nothing", "port-scan events for one burst", "without a portscan.ports", "for destination", "burst 1 of", "was being delivered", "as in an earlier burst", "behind the IP datagram"} {
 		if strings.Contains(m, k) {
 			ks = append(ks, k)
 		}
@@ -789,6 +955,9 @@ func TestBursts(t *testing.T) {
 			label, fp := classify(cases[i])
 			c := cases[i]
 			r.Case(label, fp, func() interface{} { return c })
+			for _, d := range dims(c) {
+				r.Label(d, 1)
+			}
 		}
 		verdicts, err := runBatch(l, cases)
 		if err == nil {
@@ -871,7 +1040,48 @@ func TestBurstShapes(t *testing.T) {
 	paced := func(head, span int, ps ...[]probe) scanCase {
 		return scanCase{Phases: []phase{{Probes: join(ps...), Head: head, SpanMs: span}}}
 	}
+	// sport: the probes leave from one fixed source port (sp > 0) or from a port derived
+	// from the probed port (sp == 0)
+	sport := func(sp uint16, ps []probe) []probe {
+		out := append([]probe(nil), ps...)
+		for i := range out {
+			if out[i].Sport = sp; sp == 0 {
+				out[i].Sport = pairSport(out[i].Src, out[i].Port)
+			}
+		}
+		return out
+	}
+	// framed: link-layer trailers, cycling through the given lengths (-1: padded to 60)
+	framed := func(c scanCase, tr ...int) scanCase {
+		n := 0
+		for i := range c.Phases {
+			for _, ps := range [][]probe{c.Phases[i].Probes, c.Phases[i].OnHold} {
+				for j := range ps {
+					ps[j].Trailer = tr[n%len(tr)]
+					n++
+				}
+			}
+		}
+		return c
+	}
 	shapes := []scanCase{
+		// scanners with a fixed source port, scanning again
+		seq(sport(20, rep(0, "tcp", 21, 23)), sport(20, rep(0, "tcp", 21, 23)), sport(20, rep(0, "tcp", 21, 23))),
+		seq(sport(53, rep(0, "tcp", 80, 443, 8080, 80)), sport(53, rep(0, "tcp", 8443, 443, 80, 8000))),
+		seq(sport(0, rep(1, "tcp", 25, 110, 143)), sport(0, rep(1, "tcp", 143, 993)), sport(0, rep(1, "tcp", 25))),
+		seq(sport(53, rep(0, "udp", 7000, 7001)), sport(53, rep(0, "udp", 7001, 7002)), sport(53, rep(0, "udp", 7000))),
+		seq(sport(61000, icmp(2, 2)), sport(61000, icmp(2, 1))),
+		seq(join(sport(40000, rep(0, "tcp", 80, 81)), sport(40000, rep(1, "tcp", 80, 81))), sport(40000, rep(1, "tcp", 81, 82)), sport(40000, rep(0, "tcp", 80, 83))),
+		seq(sport(65535, many(0, "tcp", 101, 101)), sport(65535, many(0, "tcp", 101, 50))),
+		// what arrives over a real Ethernet: short frames padded to 60 bytes; other trailers
+		framed(one(empty(0, 7001, 7002, 7003)), -1),
+		framed(one(rep(0, "udp", 7001), empty(0, 7002), rep(0, "udp", 7003), empty(0, 7004, 7002)), -1),
+		framed(one(rep(0, "tcp", 80, 443, 80), rep(0, "udp", 7000, 7001, 7002), icmp(0, 3)), -1),
+		framed(one(rep(0, "tcp", 80, 443, 80), rep(0, "udp", 7000, 7001, 7002), icmp(0, 3)), 1, 2, 6, 18, 46),
+		framed(one(many(0, "udp", 150, 150)), -1),
+		framed(one(many(1, "tcp", 120, 40), many(2, "udp", 30, 30)), 4, -1, 0, 300),
+		framed(seq(rep(0, "udp", 7000, 7001), rep(0, "udp", 7001, 7002)), -1),
+		framed(seq(sport(20, rep(3, "tcp", 21, 23)), sport(20, rep(3, "tcp", 23, 25))), -1),
 		// scans that take longer than one / two detector periods
 		paced(105, 5500, many(0, "tcp", 117, 117)),
 		paced(101, 10500, many(0, "udp", 150, 150)),
@@ -933,6 +1143,9 @@ func TestBurstShapes(t *testing.T) {
 		c := c
 		label, fp := classify(c)
 		r.Case("shape/"+label, fp, func() interface{} { return c })
+		for _, d := range dims(c) {
+			r.Label("shape/"+d, 1)
+		}
 	}
 	verdicts, err := runBatch(l, shapes)
 	if err == nil {
